@@ -116,7 +116,7 @@ pub const RIGHTS_LINES: &[(&str, &str)] = &[
     ("r3k2r/8/8/8/3b4/8/8/R3K2R b KQkq - 0 1", "d4a1 h1g1 a1d4 g1h1"),
     // a queen or rook move whose text looks like a castling move of the side that plays it
     ("4Q3/8/8/8/b7/8/k7/4K2R w K - 0 1", "e8g8"),
-    ("4Q3/8/8/8/7b/8/7k/R3K3 w Q - 0 1", "e8c8"),
+    ("4Q3/8/8/8/8/8/7k/R3K3 w Q - 0 1", "e8c8"),
     ("r3k3/8/8/2K5/1B6/8/8/4q3 b q - 0 1", "e1c1"),
     ("4k2r/8/8/5K2/6B1/8/8/4r3 b k - 0 1", "e1g1"),
     ("startpos", "e2e4 e7e5 d1h5 e8e7 g1f3 e7e6 f1e2 f7f6 h5e8 f8e7 e8g8"),
